@@ -1356,6 +1356,7 @@ def start_stage():
         Obl("C03/handler/dominated-by-READY", _ss_ready, when="any"),
         Obl("C03/handler/bypass-consumed", _ss_bypass_consumed, when="any"),
         Obl("C04/claim-first", _ss_claim_first, when="any"),
+        Obl("C01/RES/StartStage.claim-first", _ss_claim_first, when="any"),  # a crash after the claim must leave a stage that a redelivery can still plan
         Obl("C04/loser-silent", _ss_loser_silent, when="any"),
         Obl("C02/once-per-iteration/StartStage", _ss_claim_first, when="any"),
         Obl("C11/claim-in-claim-txn", _ss_claims, when="any"),
@@ -1463,6 +1464,11 @@ def _cancel_stage_post(ctx):
         goals.append((f"store{n}.other-tasks-unchanged", z3.Implies(z3.And(rng, z3.Not(in_set(li, I, ("NOT_STARTED", "RUNNING")))), si == li)))
     ps = [e for e, _ in T.flat(ctx.st.effects) if e.kind in ("push", "queue_push") and not e.data["cls"].startswith("Invalid")]
     goals.append(("no-push", z3.BoolVal(not ps)))
+    # ... and the other way round (the workflow ends with every stage finished or canceled): a CancelStage that stores nothing had
+    # found the stage already complete -- a stage that is not complete, with or without tasks, is never skipped
+    stage = loaded_stage(ctx)
+    if stage is not None and ctx.exc is None and not P.stores(ctx):
+        goals.append(("skipped-only-when-already-complete", is_complete(I, T.loaded_info(I, stage)["status"].t)))
     return goals
 
 
